@@ -218,7 +218,10 @@ def run(ctx):
                 it45.steps = 0
                 cls_ = Obj(q, revid_prefix=pre)
                 rid = it45.call(ff, {"cls": cls_, "git_rev_id": sha})
-                back = it45.call(fb, {"cls": cls_, "bzr_rev_id": rid})
+                try:
+                    back = it45.call(fb, {"cls": cls_, "bzr_rev_id": rid})
+                except Raised as r:
+                    back = ("raises " + r.name,)
                 got = back[0] if isinstance(back, tuple) else back
                 if got != sha or not (isinstance(rid, bytes) and rid.startswith(pre + b":")):
                     badr.append((q, sha, rid, got))
